@@ -33,8 +33,8 @@ class FragmentSpreadsMustNotFormCycles(June2018ReleaseValidationRule):
     RULE_LINK = "https://graphql.github.io/graphql-spec/June2018/#sec-Fragment-spreads-must-not-form-cycles"
     RULE_NUMBER = "5.5.2.2"
 
-    def _validate_fragment(self, fragments, fragment, spreaded):
-        for selected in fragment.selection_set.selections:
+    def _validate_selection_set(self, fragments, selection_set, spreaded):
+        for selected in selection_set.selections:
             if isinstance(selected, FragmentSpreadNode):
                 if selected.name.value in spreaded:
                     raise CycleException(fragments, self._extensions)
@@ -46,11 +46,19 @@ class FragmentSpreadsMustNotFormCycles(June2018ReleaseValidationRule):
                     continue  # Handled by another validator
 
                 spreaded.append(selected.name.value)
-                self._validate_fragment(
-                    fragments, spreaded_fragment[0], spreaded
+                self._validate_selection_set(
+                    fragments, spreaded_fragment[0].selection_set, spreaded
                 )
                 spreaded.pop()
-        return
+            elif selected.selection_set:
+                self._validate_selection_set(
+                    fragments, selected.selection_set, spreaded
+                )
+
+    def _validate_fragment(self, fragments, fragment, spreaded):
+        self._validate_selection_set(
+            fragments, fragment.selection_set, spreaded
+        )
 
     def validate(self, fragments, **_):
         for fragment in fragments:
